@@ -114,6 +114,24 @@ func transformPrimitive(source, target *expr.AttributeExpr, sourceVar, targetVar
 
 // transformObject generates Go code to transform source object to target
 // object.
+// tmpVarName returns the name of the temporary variable that holds the
+// converted value of the attribute with the given name: the Go name of the
+// attribute unless it shadows the variable that holds the source or target
+// data structure (e.g. an attribute called "v" or "res").
+func tmpVarName(name, sourceVar, targetVar string) string {
+	tmp := Goify(name, false)
+	for _, v := range []string{sourceVar, targetVar} {
+		root := strings.TrimLeft(v, "*&(")
+		if i := strings.IndexAny(root, ".[)"); i >= 0 {
+			root = root[:i]
+		}
+		if root == tmp {
+			return tmp + "Ptr"
+		}
+	}
+	return tmp
+}
+
 func transformObject(source, target *expr.AttributeExpr, sourceVar, targetVar string, newVar bool, ta *TransformAttrs) (string, error) {
 	var (
 		initCode     string
@@ -156,7 +174,7 @@ func transformObject(source, target *expr.AttributeExpr, sourceVar, targetVar st
 					if srcPtr && !srcMatt.IsRequired(n) {
 						postInitCode += fmt.Sprintf("if %s != nil {\n", srcField)
 						if tgtPtr {
-							tmp := Goify(tgtMatt.ElemName(n), false)
+							tmp := tmpVarName(tgtMatt.ElemName(n), sourceVar, targetVar)
 							postInitCode += fmt.Sprintf("%s := %s\n%s.%s = &%s\n", tmp, exp, targetVar, tgtField, tmp)
 						} else {
 							postInitCode += fmt.Sprintf("%s.%s = %s\n", targetVar, tgtField, exp)
@@ -164,7 +182,7 @@ func transformObject(source, target *expr.AttributeExpr, sourceVar, targetVar st
 						postInitCode += "}\n"
 						return
 					} else if tgtPtr {
-						tmp := Goify(tgtMatt.ElemName(n), false)
+						tmp := tmpVarName(tgtMatt.ElemName(n), sourceVar, targetVar)
 						postInitCode += fmt.Sprintf("%s := %s\n%s.%s = &%s\n", tmp, exp, targetVar, tgtField, tmp)
 						return
 					}
